@@ -108,6 +108,20 @@ def run(ck, fx, cg, tier):
     for b, n, ps, ctx in field_uses(fx, HEAP, "memory"):
         if ctx["kind"] == "recv" and ctx["method"] in SHRINK:
             ck.ob("R14.reference", "%s|heap vector %s" % (b["path"], ctx["method"]), False, loc(n), "heap indices are not stable: .%s()" % ctx["method"])
+    # … and a heap slot, once filled, keeps its object: nothing overwrites an element of the heap vector (`memory[i] = …`,
+    # `iter_mut()` over the slots, `swap`, `insert`): a reference to slot i would silently denote another object. The one
+    # mutable access is `dereference_mut` (`get_mut`), through which set_field / set_element update the object in place
+    n_mem = 0
+    for b, n, ps, ctx in field_uses(fx, HEAP, "memory"):
+        if b["from_expansion"]:
+            continue
+        n_mem += 1
+        overwrite = (ctx["kind"] == "assign") or (ctx["kind"] == "recv" and ctx.get("mut") and ctx.get("method") not in ("push", "get_mut", "reserve", "shrink_to_fit")) or ctx["kind"] == "addr_of_mut"
+        if overwrite and not (ctx["kind"] == "recv" and ctx.get("method") in SHRINK):
+            what = "index assignment" if ctx["kind"] == "assign" and "index" in (ctx.get("via") or []) else (ctx.get("method") or ctx["kind"])
+            ck.ob("R14.reference", "%s|heap slot overwritten (%s)" % (b["path"], what), False, loc(n),
+                  "the heap vector is mutated by %s in %s: an object that existing references point to can be replaced by another one" % (what, b["path"]))
+    ck.floor("R14.reference", "uses of the heap vector examined", n_mem, 3)
     # HeapObject construction sites: only the two evaluators (via new_object/from_pointers)
     ctors = set()
     for did in sorted(reach):
